@@ -32,6 +32,8 @@ for n in sorted(os.listdir(S)):
     if first:
         rp = first.get("replay") or {}
         verdict = (rp.get("oracle") or rp.get("broken") or "") if isinstance(rp, dict) else ""
-    rows.append("| %s | %s | %s | %s | %s |" % (n, title(m, n), ", ".join(catchers) or "—", ", ".join(inp) or "—", verdict[:110].replace("|", "/")))
+    if not catchers and m.get("note"):
+        verdict = m["note"]
+    rows.append("| %s | %s | %s | %s | %s |" % (n, title(m, n), ", ".join(catchers) or "—", ", ".join(inp) or "—", verdict[:(110 if catchers else 600)].replace("|", "/")))
 print("| change | what it does | caught by | with a concrete failing input | verdict of the first catcher |\n|---|---|---|---|---|")
 print("\n".join(rows))
